@@ -33,7 +33,7 @@ def qZ : Key := 5
 def qS (w : Nat) : Key := 8 * w + 6
 /-- FDP{File: an IR file object}: `p` the path, `ord` the ordinal of that IR object among the IR
     objects of `p` that ever got an FDP task (FDP is keyed by IR file identity) -/
-def qP (p ord : Nat) : Key := 8 * (p + 64 * ord) + 7
+def qP (p ord : Nat) : Key := 8 * (p + 4096 * ord) + 7
 
 structure Content where
   path : Nat
